@@ -3,6 +3,8 @@ use super::Gen;
 use crate::wire::fbits;
 
 pub fn generate(g: &mut Gen, thorough: bool) {
+    // the degree-minute-second spellings of text: every sign, zero degrees, fractions of the last field
+    super::c16::sexagesimal_cases(g);
     // angles on a fine lattice in [-720, 720] degrees, with attention to carries and |angle| < 1
     let mut angles: Vec<f64> = vec![];
     let step = if thorough { 0.0125 } else { 0.25 };
